@@ -49,14 +49,14 @@ def prm_value(r, name, span):
 
 
 def prm_spec(r, name, dims_letters, shape, span):
-    kind = r.choice(["scalar", "scalar", "label", "cohort", "all"])
+    kind = r.choice(["scalar", "label", "label", "cohort", "all"])
     if kind == "scalar" or len(dims_letters) == 0:
         return {"kind": "scalar", "v": fnum(prm_value(r, name, span))}
     if kind == "label":
         ls = [l for l in dims_letters if l != "t"]
         if not ls:
             return {"kind": "scalar", "v": fnum(prm_value(r, name, span))}
-        ls = r.sample(ls, r.randint(1, len(ls)))
+        ls = r.sample(ls, len(ls) if r.random() < 0.6 else r.randint(1, len(ls)))
     elif kind == "cohort":
         ls = ["t"]
     else:
@@ -90,6 +90,9 @@ def gen_dsm(tier, seed):
             items = items[: r.choice([1, 2])]          # too short: must be refused
             n = len(items)
         extra = [r.choice([1, 2, 3]) for _ in range(r.choice([0, 0, 1, 1, 2]))]
+        if r.random() < 0.25:
+            k = r.choice([2, 2, 3])
+            extra = [k, k]          # two extra dimensions of equal length: a silent transposition keeps the shape
         letters = ["t", "r", "g"][: 1 + len(extra)]
         shape = [n] + extra
         m = 1
